@@ -160,6 +160,12 @@ M = [
   "        0..=15 => 2,\n        241..=255 => 3,", "        0..=16 => 2,\n        241..=255 => 3,"),
  ("c18_ctx_header_boundary", "C18", "R-ICC-CTX", "crates/jxl-color/src/icc/decode.rs",
   "    if idx <= 128 {\n        return 0;", "    if idx < 128 {\n        return 0;"),
+ ("c12_tendency_i16_bias", "C12", "R-TENDENCY", "crates/jxl-modular/src/transform/squeeze.rs",
+  "fn tendency_i16(a: i16, b: i16, c: i16) -> i16 {\n    let a = Wrapping(a);\n    let b = Wrapping(b);\n    let c = Wrapping(c);\n\n    let n1 = Wrapping(1);\n    let n2 = Wrapping(2);\n    let n3 = Wrapping(3);\n    let n4 = Wrapping(4);\n    let n6 = Wrapping(6);",
+  "fn tendency_i16(a: i16, b: i16, c: i16) -> i16 {\n    let a = Wrapping(a);\n    let b = Wrapping(b);\n    let c = Wrapping(c);\n\n    let n1 = Wrapping(1);\n    let n2 = Wrapping(2);\n    let n3 = Wrapping(3);\n    let n4 = Wrapping(4);\n    let n6 = Wrapping(5);"),
+ ("c12_tendency_i32_clamp", "C12", "R-TENDENCY", "crates/jxl-modular/src/transform/squeeze.rs",
+  "        if x + (x & n1) > n2 * (b - c) {\n            x = n2 * (b - c);\n        }\n        x.0\n    } else if a <= b && b <= c {\n        let mut x = (n4 * a - n3 * c - b - n6) / n12;\n        if x + (x & n1) < n2 * (a - b) {\n            x = n2 * (a - b) - n1;",
+  "        if x + (x & n1) > n2 * (b - c) {\n            x = n2 * (b - c);\n        }\n        x.0\n    } else if a <= b && b <= c {\n        let mut x = (n4 * a - n3 * c - b - n6) / n12;\n        if x + (x & n1) < n2 * (a - b) {\n            x = n2 * (a - b) + n1;"),
  ("c18_interp_order1_sign", "C18", "script:predict width 1 order 1", "crates/jxl-color/src/icc/decode.rs",
   "                        1 => Wrapping(2) * prev[0] - prev[1],", "                        1 => Wrapping(2) * prev[0] + prev[1],"),
  ("c18_interp_xyz_triple_offset", "C18", "script:tag list", "crates/jxl-color/src/icc/decode.rs",
